@@ -317,7 +317,18 @@ func (k *kindInfer) expectedKind(fn *types.Func, idx int) string {
 						switch {
 						case fld.Pkg() != nil && fld.Pkg().Path() == "golang.org/x/tools/go/packages" && fld.Name() == "Dir":
 							out = join(out, kDir)
+						case k.prog.IsMoqPkg(fld.Pkg()):
+							// parked in a field of a moq struct: what the field is used as
+							out = join(out, k.fieldUseKind(fld))
 						}
+					}
+				}
+			}
+		case *ast.AssignStmt:
+			for i, l := range s.Lhs {
+				if sel, ok := ast.Unparen(l).(*ast.SelectorExpr); ok && len(s.Rhs) == len(s.Lhs) && isP(s.Rhs[i]) {
+					if fld, ok := info.ObjectOf(sel.Sel).(*types.Var); ok && fld.IsField() && k.prog.IsMoqPkg(fld.Pkg()) {
+						out = join(out, k.fieldUseKind(fld))
 					}
 				}
 			}
@@ -331,6 +342,62 @@ func (k *kindInfer) expectedKind(fn *types.Func, idx int) string {
 			}
 		}
 		return true
+	})
+	k.memo[key] = out
+	return out
+}
+
+// fieldUseKind: what a string field of a moq struct is used as, wherever it is read: compared with a
+// value of a known kind, stored into a field of a known kind, or passed to a parameter with an expected kind.
+func (k *kindInfer) fieldUseKind(fld *types.Var) string {
+	if !isStringType(fld.Type()) {
+		return ""
+	}
+	key := "fielduse:" + fld.Pkg().Path() + "." + fld.Name() + fmt.Sprint(fld.Pos())
+	if v, ok := k.memo[key]; ok {
+		return v
+	}
+	k.memo[key] = ""
+	out := ""
+	funcsOf(k.prog, func(pkgPath string, info *types.Info, fd *ast.FuncDecl, fn *types.Func) {
+		isF := func(e ast.Expr) bool {
+			sel, ok := ast.Unparen(e).(*ast.SelectorExpr)
+			return ok && info.ObjectOf(sel.Sel) == fld
+		}
+		ast.Inspect(fd.Body, func(n ast.Node) bool {
+			switch s := n.(type) {
+			case *ast.BinaryExpr:
+				if s.Op == token.EQL || s.Op == token.NEQ {
+					if isF(s.X) {
+						out = join(out, k.kindOf(info, fd, s.Y))
+					} else if isF(s.Y) {
+						out = join(out, k.kindOf(info, fd, s.X))
+					}
+				}
+			case *ast.KeyValueExpr:
+				if isF(s.Value) {
+					if id, ok := s.Key.(*ast.Ident); ok {
+						if f2, ok := info.ObjectOf(id).(*types.Var); ok && f2.IsField() && f2 != fld {
+							switch {
+							case f2.Pkg() != nil && f2.Pkg().Path() == "golang.org/x/tools/go/packages" && f2.Name() == "Dir":
+								out = join(out, kDir)
+							case k.prog.IsMoqPkg(f2.Pkg()):
+								out = join(out, k.fieldUseKind(f2))
+							}
+						}
+					}
+				}
+			case *ast.CallExpr:
+				if cf, ok := typeutil.Callee(info, s).(*types.Func); ok && k.prog.IsMoqPkg(cf.Pkg()) {
+					for ai, a := range s.Args {
+						if isF(a) {
+							out = join(out, k.expectedKind(cf.Origin(), ai))
+						}
+					}
+				}
+			}
+			return true
+		})
 	})
 	k.memo[key] = out
 	return out
